@@ -1,113 +1,158 @@
-(* Model of the async-read gate of conn_unix.go (Conn.AsyncRead, not ONESHOT) as it is after commits 0a74eed (one atomic
-   conditional increment), 15e9d4b (every read uses the whole buffer), 55f84ef and 2333828 (end of stream is handled by
-   the task; a half-close event stores the flag first and calls AsyncRead once):
+(* Model of the asynchronous read path of conn_unix.go (Conn.AsyncRead) for edge-triggered epoll with and without
+   EPOLLONESHOT, as it is after commits 0a74eed (one atomic conditional increment), 15e9d4b (every read uses the whole
+   buffer), 55f84ef / 2333828 (the end of the stream is handled by the task; a half-close event stores the flag first and
+   calls AsyncRead once) and 270b003 (one gate for every mode; in one-shot mode the task re-arms when it exits):
 
-     poller, per readiness event:  loop { cnt := load readEvents; if cnt >= 2 return;
+     poller, per readiness event:  [event carries RDHUP only: store readEOF := 1]
+                                   loop { cnt := load readEvents; if cnt >= 2 return;
                                           if CAS(readEvents, cnt, cnt+1) { if cnt >= 1 return; break } }
                                    IOExecute(task)
-     poller, event with RDHUP only: store readEOF := 1; then the above, once
-                                   (the model also admits the older order: an AsyncRead call for the IN part before the store)
      task:  loop { read pass: read until EAGAIN or a short read, every read handed to the data callback;
                    if load readEOF != 0 { read until n <= 0, handing every read to the callback; close; return }
-                   if add(readEvents, -1) = 0 return }
+                   if add(readEvents, -1) = 0 { if oneshot { ResetPollerEvent }; return } }
 
-   One step of the model is one linearisation point of the code: the successful CAS (or the load that saw 2), the
-   hand-over to the executor, the store of readEOF, one read(2) with its callback, the load of readEOF, the decrement.
-   The kernel side: a receive buffer (list of payload elements, any type A), the peer's shutdown of its sending side, and
-   the edge-triggered readiness flag of epoll (set by every arrival and by the shutdown, taken by the poller when it
-   reports the event; assumption K3; the flag also stands for "the poller owes one AsyncRead call" after the store).
+   One step of the model is one linearisation point of the code: epoll_wait reporting the descriptor, the store of
+   readEOF, the successful CAS (or the load that saw 2), the hand-over to the executor, the critical section of
+   closeWithError that sets Conn.closed, one read(2) with its callback, the load of readEOF, the decrement, the
+   EPOLL_CTL_MOD of the re-arm.
+   The kernel side (assumptions K2, K3): a receive buffer (list of payload elements, any type A), the peer's shutdown of
+   its sending side, and the readiness flag `edge` of epoll: the descriptor is on the ready list.
+     ET:       set by every arrival and by the shutdown, cleared when the poller takes the event.
+     ONESHOT:  as ET while the registration is armed; taking the event disarms; arrivals while disarmed are not queued;
+               every EPOLL_CTL_MOD arms and queues the descriptor iff it is readable at that moment - the task's
+               re-arm, and (action Mod) any modWrite / resetRead caused by a Write, a flush or a dial completion.
+   An event that is reported while the peer has shut down carries RDHUP: the poller marks before it enters the gate (a
+   shutdown that lands between the report and the gate step is ordered behind the gate step: the two commute).
    No proofs in this file. *)
 From Coq Require Import List Arith Bool.
 Import ListNotations.
 
-Inductive tphase := TReading | TAtCheck | TAtDec | TDraining.
+Inductive tphase := TReading | TAtCheck | TAtDec | TDraining | TClosing.
 
 Section Gate.
 Variable A : Type.
+Variable oneshot : bool.      (* Engine.isOneshot *)
 
 Record st := mk {
   r : nat;                  (* Conn.readEvents *)
   task : option tphase;     (* the read task, if alive *)
+  held : bool;              (* epoll_wait has reported the descriptor and the poller has not yet done its gate step *)
   spawning : bool;          (* the poller has raised 0 -> 1 and has not yet handed the task to the executor *)
+  rearm : nat;              (* one-shot: tasks that have lowered the counter to 0 and have not yet re-armed the descriptor *)
   avail : list A;           (* the socket's receive buffer *)
-  edge : bool;              (* a readiness edge not yet reported by epoll_wait / an AsyncRead call owed by the poller *)
+  edge : bool;              (* the descriptor is on epoll's ready list *)
+  armed : bool;             (* one-shot: the registration is enabled *)
   eofsent : bool;           (* the peer has shut down its sending side *)
   eofflag : bool;           (* Conn.readEOF *)
   closed : bool;            (* the read task has closed the connection at the end of the stream *)
   sent : list A;            (* ghost: everything the peer has sent *)
   delivered : list A;       (* ghost: concatenation of the data callback's arguments *)
-  ntasks : nat              (* ghost: read tasks alive *)
+  ntasks : nat              (* ghost: read tasks that may still read *)
 }.
 
 Inductive action :=
-| Arrive (a : A) (d : list A)   (* the peer's bytes a :: d reach the socket: raises an edge *)
-| PeerEOF                       (* the peer shuts down its sending side: raises an edge (RDHUP) *)
-| PollGate                      (* the poller takes the edge and performs the gate step *)
+| Arrive (a : A) (d : list A)   (* the peer's bytes a :: d reach the socket *)
+| PeerEOF                       (* the peer shuts down its sending side (RDHUP) *)
+| Mod                           (* one-shot: an EPOLL_CTL_MOD from the write side re-arms the descriptor *)
+| PollTake                      (* epoll_wait reports the descriptor to the poller (one-shot: this disarms it) *)
+| PollMarkEOF                   (* the reported event carries RDHUP: the poller stores readEOF := 1 *)
+| PollGate                      (* the poller's gate step for the event it holds *)
 | PollSpawn                     (* the poller hands the task to IOExecute (after raising 0 -> 1) *)
-| PollMarkEOF                   (* the poller stores readEOF := 1 (it has seen RDHUP) and owes one more AsyncRead *)
 | TaskRead (buf : nat)          (* one read(2) of the read pass with a buffer of buf+1 bytes, result handed to the callback *)
 | TaskCheck                     (* the load of readEOF after the read pass *)
 | TaskDec                       (* the decrement at the end of a read pass *)
-| TaskDrain (buf : nat).        (* one read(2) of readToEOF; n <= 0 ends it and the task closes the connection *)
+| TaskDrain (buf : nat)         (* one read(2) of readToEOF; n <= 0 ends it *)
+| TaskClose                     (* the task closes the connection (Conn.closed := true under Conn.mux) *)
+| TaskRearm.                    (* one-shot: ResetPollerEvent of the task that lowered the counter to 0 *)
 
-Definition set_task (s : st) (t : option tphase) (n : nat) : st :=
-  mk (r s) t (spawning s) (avail s) (edge s) (eofsent s) (eofflag s) (closed s) (sent s) (delivered s) n.
+Definition nonempty (l : list A) : bool := match l with [] => false | _ => true end.
+
+(* readable: what EPOLL_CTL_MOD finds when it polls the descriptor *)
+Definition readable (s : st) : bool := nonempty (avail s) || eofsent s.
+
+(* a new arrival / the shutdown puts the descriptor on the ready list (one-shot: only while armed) *)
+Definition raise (s : st) : bool := if oneshot then armed s || edge s else true.
+
+Definition upd_kernel (s : st) (av : list A) (e ar es : bool) (sn : list A) : st :=
+  mk (r s) (task s) (held s) (spawning s) (rearm s) av e ar es (eofflag s) (closed s) sn (delivered s) (ntasks s).
 
 Definition step (s : st) (a : action) : st :=
   match a with
   | Arrive x d =>
-      if eofsent s then s else
-      mk (r s) (task s) (spawning s) (avail s ++ x :: d) true (eofsent s) (eofflag s) (closed s)
-         (sent s ++ x :: d) (delivered s) (ntasks s)
+      if eofsent s then s else upd_kernel s (avail s ++ x :: d) (raise s) (armed s) false (sent s ++ x :: d)
   | PeerEOF =>
-      if eofsent s then s else
-      mk (r s) (task s) (spawning s) (avail s) true true (eofflag s) (closed s) (sent s) (delivered s) (ntasks s)
+      if eofsent s then s else upd_kernel s (avail s) (raise s) (armed s) true (sent s)
+  | Mod =>
+      if oneshot && negb (closed s) then upd_kernel s (avail s) (edge s || readable s) true (eofsent s) (sent s) else s
+  | PollTake =>
+      if edge s && negb (held s) && negb (spawning s) then
+        mk (r s) (task s) true (spawning s) (rearm s) (avail s) false (if oneshot then false else armed s) (eofsent s) (eofflag s)
+           (closed s) (sent s) (delivered s) (ntasks s)
+      else s
+  | PollMarkEOF =>
+      if held s && eofsent s && negb (eofflag s) && negb (spawning s) then
+        mk (r s) (task s) (held s) (spawning s) (rearm s) (avail s) (edge s) (armed s) (eofsent s) true (closed s) (sent s) (delivered s) (ntasks s)
+      else s
   | PollGate =>
-      if edge s && negb (spawning s) then
-        if 2 <=? r s then mk (r s) (task s) false (avail s) false (eofsent s) (eofflag s) (closed s) (sent s) (delivered s) (ntasks s)
-        else mk (S (r s)) (task s) (r s =? 0) (avail s) false (eofsent s) (eofflag s) (closed s) (sent s) (delivered s) (ntasks s)
+      if held s && negb (spawning s) && (negb (eofsent s) || eofflag s) then
+        if 2 <=? r s then mk (r s) (task s) false false (rearm s) (avail s) (edge s) (armed s) (eofsent s) (eofflag s) (closed s) (sent s) (delivered s) (ntasks s)
+        else mk (S (r s)) (task s) false (r s =? 0) (rearm s) (avail s) (edge s) (armed s) (eofsent s) (eofflag s) (closed s) (sent s) (delivered s) (ntasks s)
       else s
   | PollSpawn =>
       if spawning s then
-        mk (r s) (Some TReading) false (avail s) (edge s) (eofsent s) (eofflag s) (closed s) (sent s) (delivered s) (S (ntasks s))
-      else s
-  | PollMarkEOF =>
-      if eofsent s && negb (eofflag s) && negb (spawning s) then
-        mk (r s) (task s) (spawning s) (avail s) true (eofsent s) true (closed s) (sent s) (delivered s) (ntasks s)
+        mk (r s) (Some TReading) (held s) false (rearm s) (avail s) (edge s) (armed s) (eofsent s) (eofflag s) (closed s) (sent s) (delivered s) (S (ntasks s))
       else s
   | TaskRead buf =>
       match task s with
       | Some TReading =>
           let chunk := firstn (S buf) (avail s) in
-          mk (r s) (Some (if length chunk <? S buf then TAtCheck else TReading)) (spawning s)
-             (skipn (S buf) (avail s)) (edge s) (eofsent s) (eofflag s) (closed s) (sent s) (delivered s ++ chunk) (ntasks s)
+          mk (r s) (Some (if length chunk <? S buf then TAtCheck else TReading)) (held s) (spawning s) (rearm s)
+             (skipn (S buf) (avail s)) (edge s) (armed s) (eofsent s) (eofflag s) (closed s) (sent s) (delivered s ++ chunk) (ntasks s)
       | _ => s
       end
   | TaskCheck =>
       match task s with
-      | Some TAtCheck => set_task s (Some (if eofflag s then TDraining else TAtDec)) (ntasks s)
+      | Some TAtCheck =>
+          mk (r s) (Some (if eofflag s then TDraining else TAtDec)) (held s) (spawning s) (rearm s) (avail s) (edge s) (armed s)
+             (eofsent s) (eofflag s) (closed s) (sent s) (delivered s) (ntasks s)
       | _ => s
       end
   | TaskDec =>
       match task s with
       | Some TAtDec =>
-          if r s =? 1 then mk 0 None (spawning s) (avail s) (edge s) (eofsent s) (eofflag s) (closed s) (sent s) (delivered s) (pred (ntasks s))
-          else mk (pred (r s)) (Some TReading) (spawning s) (avail s) (edge s) (eofsent s) (eofflag s) (closed s) (sent s) (delivered s) (ntasks s)
+          if r s =? 1 then
+            mk 0 None (held s) (spawning s) (if oneshot then S (rearm s) else rearm s) (avail s) (edge s) (armed s) (eofsent s) (eofflag s) (closed s) (sent s) (delivered s) (pred (ntasks s))
+          else
+            mk (pred (r s)) (Some TReading) (held s) (spawning s) (rearm s) (avail s) (edge s) (armed s) (eofsent s) (eofflag s) (closed s) (sent s) (delivered s) (ntasks s)
       | _ => s
       end
   | TaskDrain buf =>
       match task s with
       | Some TDraining =>
           match avail s with
-          | [] => mk (r s) None (spawning s) [] (edge s) (eofsent s) (eofflag s) true (sent s) (delivered s) (pred (ntasks s))
-          | _ => mk (r s) (Some TDraining) (spawning s) (skipn (S buf) (avail s)) (edge s) (eofsent s) (eofflag s) (closed s)
+          | [] => mk (r s) (Some TClosing) (held s) (spawning s) (rearm s) [] (edge s) (armed s) (eofsent s) (eofflag s) (closed s) (sent s) (delivered s) (ntasks s)
+          | _ => mk (r s) (Some TDraining) (held s) (spawning s) (rearm s) (skipn (S buf) (avail s)) (edge s) (armed s) (eofsent s) (eofflag s) (closed s)
                     (sent s) (delivered s ++ firstn (S buf) (avail s)) (ntasks s)
           end
       | _ => s
       end
+  | TaskClose =>
+      match task s with
+      | Some TClosing =>
+          mk (r s) None (held s) (spawning s) (rearm s) (avail s) (edge s) (armed s) (eofsent s) (eofflag s) true (sent s) (delivered s) (pred (ntasks s))
+      | _ => s
+      end
+  | TaskRearm =>
+      if 0 <? rearm s then
+        if closed s then
+          mk (r s) (task s) (held s) (spawning s) (pred (rearm s)) (avail s) (edge s) (armed s) (eofsent s) (eofflag s) (closed s) (sent s) (delivered s) (ntasks s)
+        else
+          mk (r s) (task s) (held s) (spawning s) (pred (rearm s)) (avail s) (edge s || readable s) true (eofsent s) (eofflag s) (closed s) (sent s) (delivered s) (ntasks s)
+      else s
   end.
 
-Definition init : st := mk 0 None false [] false false false false [] [] 0.
+(* a registered connection: armed, nothing pending *)
+Definition init : st := mk 0 None false false 0 [] false true false false false [] [] 0.
 Definition run (l : list action) : st := fold_left step l init.
 
 (* is the action enabled (does it correspond to a step the code / the environment can take in this state)? *)
@@ -115,26 +160,31 @@ Definition enabled (s : st) (a : action) : bool :=
   match a with
   | Arrive _ _ => negb (eofsent s)
   | PeerEOF => negb (eofsent s)
-  | PollGate => edge s && negb (spawning s)
+  | Mod => oneshot && negb (closed s)
+  | PollTake => edge s && negb (held s) && negb (spawning s)
+  | PollMarkEOF => held s && eofsent s && negb (eofflag s) && negb (spawning s)
+  | PollGate => held s && negb (spawning s) && (negb (eofsent s) || eofflag s)
   | PollSpawn => spawning s
-  | PollMarkEOF => eofsent s && negb (eofflag s) && negb (spawning s)
   | TaskRead _ => match task s with Some TReading => true | _ => false end
   | TaskCheck => match task s with Some TAtCheck => true | _ => false end
   | TaskDec => match task s with Some TAtDec => true | _ => false end
   | TaskDrain _ => match task s with Some TDraining => true | _ => false end
+  | TaskClose => match task s with Some TClosing => true | _ => false end
+  | TaskRearm => 0 <? rearm s
   end.
 
-(* nobody can act on the connection any more (only the peer can): no unreported edge, no task, no hand-over in
-   progress, and the poller has dealt with the peer's shutdown if there was one *)
+(* nobody can act on the connection any more (only the peer and the write side can): no event to take, no task, no
+   hand-over and no re-arm in progress *)
 Definition quiescent (s : st) : Prop :=
-  edge s = false /\ spawning s = false /\ task s = None /\ (eofsent s = true -> eofflag s = true).
+  edge s = false /\ held s = false /\ spawning s = false /\ task s = None /\ rearm s = 0.
 
 End Gate.
 
 Arguments mk {A}.
-Arguments r {A}. Arguments task {A}. Arguments spawning {A}. Arguments avail {A}. Arguments edge {A}.
-Arguments eofsent {A}. Arguments eofflag {A}. Arguments closed {A}.
+Arguments r {A}. Arguments task {A}. Arguments held {A}. Arguments spawning {A}. Arguments rearm {A}. Arguments avail {A}. Arguments edge {A}.
+Arguments armed {A}. Arguments eofsent {A}. Arguments eofflag {A}. Arguments closed {A}.
 Arguments sent {A}. Arguments delivered {A}. Arguments ntasks {A}.
-Arguments Arrive {A}. Arguments PeerEOF {A}. Arguments PollGate {A}. Arguments PollSpawn {A}. Arguments PollMarkEOF {A}.
-Arguments TaskRead {A}. Arguments TaskCheck {A}. Arguments TaskDec {A}. Arguments TaskDrain {A}.
-Arguments set_task {A}. Arguments step {A}. Arguments init {A}. Arguments run {A}. Arguments quiescent {A}. Arguments enabled {A}.
+Arguments Arrive {A}. Arguments PeerEOF {A}. Arguments Mod {A}. Arguments PollTake {A}. Arguments PollGate {A}. Arguments PollSpawn {A}. Arguments PollMarkEOF {A}.
+Arguments TaskRead {A}. Arguments TaskCheck {A}. Arguments TaskDec {A}. Arguments TaskDrain {A}. Arguments TaskClose {A}. Arguments TaskRearm {A}.
+Arguments nonempty {A}. Arguments readable {A}. Arguments raise {A}. Arguments upd_kernel {A}.
+Arguments step {A}. Arguments init {A}. Arguments run {A}. Arguments quiescent {A}. Arguments enabled {A}.
